@@ -67,6 +67,19 @@ that every small change there that re-polls or retains a finished child also bre
 `FuturesOrderedBounded::poll_next`, a type C18 does not list (the bounded *ordered* queue is not among the "no allocation after
 construction" types), so a check that flagged it would demand more than the property states - and that sub-agent's report showed it
 had looked into /verif/seeded, against its instructions.
+
+Round 9 (8 further changes, 77 in all; two more rediscoveries of earlier edits). Predicted misses, extended before evaluation:
+`c13_budget_requeues_popped_slot_at_tail` needs exactly 61 self-waking children queued ahead of a woken victim ->
+`fub_budget_fifo` (capacity 62, concrete; the victim not reached by the call must be at the FRONT of the ready queue afterwards);
+`c06_fob_rebase_forgets_heap_top`: the ordered collection had a drop-only C06 step -> `fob_poll_drop_*` (ONE poll with
+drop-counted outputs, then drop). Three changes were first INCONCLUSIVE (exit 2, never a pass) and led to further work:
+`c03_drop_waker_header_without_index` - the misaddressed header makes the code drop a garbage `Waker`, which trips the harness'
+own "no waker operation inside a child-waker operation" assertion before CBMC reaches the bad `dealloc`; on Layer W that assertion
+is now treated like a memory-safety failure (candidate C03 violation, confirmed natively by the crash / valgrind);
+`c06_fob_rebase_forgets_heap_top` - its raw-pointer rewrite of the re-basing block ran CBMC out of 30 GB with a symbolic position
+counter, for capacity 2 and for capacity 1 -> `fob_poll_drop_c1_hi` (counter concretely 2^64-1: the block is taken on every path);
+`c10_tbo_error_path_discards_output` - the changed adapter polls the collection twice per call, `ad_tbo_n2` ran out of 24 GB ->
+`ad_tbo_n2_q0` (ready queue concretely empty; decides the changed code in 23 min / 2.3 M steps, the unchanged code in 2 min).
 """
 s = open(os.path.join(V, "DESIGN.md")).read()
 a = s.index("## 9. Seeded changes")
